@@ -353,4 +353,94 @@ theorem hash_never_the_abstract_base (o : Obj) : o.cls.hashSlot ≠ .raises := b
   generalize o.cls = c
   cases c <;> decide
 
+/-! ## order asked after other operations: pooled Scalars and FractionScalars whose `float()`, `str()`, `repr()`,
+`GetValue(unit)` were taken, that were compared in either operand order, hashed, used in arithmetic and copied first -/
+
+/-- whatever is done, a pooled operand keeps the descriptor it was created with -/
+theorem ostir_keeps_pool (s : OSession) (ops : List OStirOp) {i : Nat} (hi : i < s.pool.length) :
+    (s.run ops).pool[i]? = s.pool[i]? :=
+  OSession.run_getElem? s ops hi
+
+/-- every operand of the pool after a history is (a copy of) an operand of the pool before it -/
+theorem ostir_only_copies (s : OSession) (ops : List OStirOp) {o : Operand} (h : o ∈ (s.run ops).pool) : o ∈ s.pool :=
+  OSession.run_mem s ops h
+
+/-- after ANY history the verdict (or error) of every order operator is the one on the fresh objects -/
+theorem stir_invisible_order (s : OSession) (ops : List OStirOp) (db : Db) (small : Rat) (op : Op) {i j : Nat}
+    (hi : i < s.pool.length) (hj : j < s.pool.length) :
+    (s.run ops).order db small op i j = s.order db small op i j := by
+  unfold OSession.order
+  rw [OSession.run_getElem? s ops hi, OSession.run_getElem? s ops hj]
+
+/-- after any history `GetValue(unit)` of a pooled operand is the value converted from its descriptor -/
+theorem stir_invisible_value (s : OSession) (ops : List OStirOp) (db : Db) (small : Rat) {i : Nat} (u : Sym)
+    (hi : i < s.pool.length) : (s.run ops).valueIn db small i u = s.valueIn db small i u := by
+  unfold OSession.valueIn
+  rw [OSession.run_getElem? s ops hi]
+
+/-- the order verdicts after any history are a function of the two descriptors only -/
+theorem stirred_order_of_descriptors {pool : List Operand} (ops : List OStirOp) (db : Db) (small : Rat) (op : Op)
+    {i j : Nat} {a b : Operand} (ha : pool[i]? = some a) (hb : pool[j]? = some b) :
+    ((OSession.mk pool).run ops).order db small op i j = a.order db small op b := by
+  rw [stir_invisible_order _ ops db small op (List.getElem?_eq_some_iff.mp ha).1 (List.getElem?_eq_some_iff.mp hb).1]
+  simp [OSession.order, ha, hb]
+
+/-- a copy made at any moment orders as its original does, on either side, after any further history -/
+theorem stirred_copy_orders_as_original (s : OSession) (ops : List OStirOp) (db : Db) (small : Rat) (op : Op)
+    {k : Nat} (hk : k < s.pool.length) (j : Nat) :
+    ((s.step (.copy k)).run ops).order db small op s.pool.length j = ((s.step (.copy k)).run ops).order db small op k j
+    ∧ ((s.step (.copy k)).run ops).order db small op j s.pool.length = ((s.step (.copy k)).run ops).order db small op j k := by
+  have hp : (s.step (.copy k)).pool = s.pool ++ [s.pool[k]] := by
+    simp [OSession.step, List.getElem?_eq_getElem hk]
+  have hl : (s.step (.copy k)).pool.length = s.pool.length + 1 := by rw [hp]; simp
+  have e : ((s.step (.copy k)).run ops).pool[s.pool.length]? = ((s.step (.copy k)).run ops).pool[k]? := by
+    rw [OSession.run_getElem? _ ops (by omega), OSession.run_getElem? _ ops (by omega), hp]
+    simp [List.getElem?_append_left hk, List.getElem?_eq_getElem hk]
+  unfold OSession.order
+  rw [e]
+  exact ⟨rfl, rfl⟩
+
+/-- **order follows the physical amount after any history**: two pooled Scalars of one quantity type -/
+theorem stirred_scalar_order_iff_base {db : Db} (hdb : db.AllWF) {pool : List Operand} (ops : List OStirOp)
+    (small : Rat) {i j : Nat} {a b : Sc} (hi : pool[i]? = some a.toOperand) (hj : pool[j]? = some b.toOperand)
+    (ha : a.q.Built db) (hb : b.q.Built db) (hq : a.q.qtype = b.q.qtype) (op : Op) :
+    ((OSession.mk pool).run ops).order db small op i j
+      = .ok (op.apply (a.q.baseAmount a.v) (b.q.baseAmount b.v)) := by
+  rw [stirred_order_of_descriptors ops db small op hi hj]
+  exact (operand_order_scalar db small op a b).trans (scalar_order_iff_base hdb ha hb hq op)
+
+/-- after any history `a > b` and `b > a` (`a < b` and `b < a`) are never both true, and `a <= b` or `b <= a` holds -/
+theorem stirred_scalar_coherent {db : Db} (hdb : db.AllWF) {pool : List Operand} (ops : List OStirOp)
+    (small : Rat) {i j : Nat} {a b : Sc} (hi : pool[i]? = some a.toOperand) (hj : pool[j]? = some b.toOperand)
+    (ha : a.q.Built db) (hb : b.q.Built db) (hq : a.q.qtype = b.q.qtype) :
+    let s := (OSession.mk pool).run ops
+    ¬ (s.order db small .gt i j = .ok true ∧ s.order db small .gt j i = .ok true)
+    ∧ ¬ (s.order db small .lt i j = .ok true ∧ s.order db small .lt j i = .ok true)
+    ∧ (s.order db small .le i j = .ok true ∨ s.order db small .le j i = .ok true) := by
+  intro s
+  simp only [s]
+  rw [stirred_scalar_order_iff_base hdb ops small hi hj ha hb hq, stirred_scalar_order_iff_base hdb ops small hj hi hb ha hq.symm,
+    stirred_scalar_order_iff_base hdb ops small hi hj ha hb hq, stirred_scalar_order_iff_base hdb ops small hj hi hb ha hq.symm,
+    stirred_scalar_order_iff_base hdb ops small hi hj ha hb hq, stirred_scalar_order_iff_base hdb ops small hj hi hb ha hq.symm]
+  simp only [Op.apply, Except.ok.injEq, decide_eq_true_eq]
+  exact ⟨fun h => lt_asymm h.1 h.2, fun h => lt_asymm h.1 h.2, le_total _ _⟩
+
+/-- the same for two pooled FractionScalars (with the hypothesis of `fscalar_order_iff_base_partial`: the converted
+numerator survives `Fraction(number)`; for equal units it always does) -/
+theorem stirred_fscalar_order_iff_base_partial {db : Db} (hdb : db.AllWF) {pool : List Operand} (ops : List OStirOp)
+    {small : Rat} {i j : Nat} {a b : FSc} (hi : pool[i]? = some a.toOperand) (hj : pool[j]? = some b.toOperand)
+    (ha : a.q.Built db) (hb : b.q.Built db) (hq : a.q.qtype = b.q.qtype)
+    (hk : b.NumeratorKept db small a.q.unit) (op : Op) :
+    ((OSession.mk pool).run ops).order db small op i j
+      = .ok (op.apply (a.q.baseAmount a.v.toFloat) (b.q.baseAmount b.v.toFloat)) := by
+  rw [stirred_order_of_descriptors ops db small op hi hj]
+  exact (operand_order_fscalar db small op a b).trans (fscalar_order_iff_base_partial hdb ha hb hq hk op)
+
+/-- after any history ordering two pooled operands of different quantity types raises `TypeError` -/
+theorem stirred_order_cross_type_error {pool : List Operand} (ops : List OStirOp) (db : Db) (small : Rat) (op : Op)
+    {i j : Nat} {a b : Operand} (ha : pool[i]? = some a) (hb : pool[j]? = some b) (h : a.q.qtype ≠ b.q.qtype) :
+    ((OSession.mk pool).run ops).order db small op i j = .error .type := by
+  rw [stirred_order_of_descriptors ops db small op ha hb]
+  exact operand_order_cross_type_error db small op a b h
+
 end Barril
